@@ -1647,9 +1647,9 @@ func ruleFramePair(r *Run) {
 				okReg = r.P.Canon(ev.Fn, ev.Call.Args[0]) == "param:#1" && r.isJoinLocalSession(ev.Fn, ev.Recv)
 				stored := false
 				for _, pe := range path.Events[iHF:] {
-					if pe.Kind == EvAssign && len(pe.Lhs) == 1 && r.P.Canon(pe.Fn, pe.Lhs[0]) == "recv.stopFrameHandling" {
+					if pe.Kind == EvAssign && len(pe.Lhs) == 1 && len(pe.Rhs) == 1 && r.P.Canon(pe.Fn, pe.Lhs[0]) == "recv.stopFrameHandling" {
+						// the value the field holds when the handler returns (a later overwrite loses the function)
 						stored = strings.Contains(r.P.Canon(pe.Fn, pe.Rhs[0]), "call:Session.HandleFrame(param:#1)")
-						break
 					}
 				}
 				okReg = okReg && stored
